@@ -87,16 +87,17 @@ func (d *DB) Close() {
 }
 
 // Write stores one block through the block-write database and merges it as the newest temp.
-// withCache: give the write database a state cache (it is handed to the temp and to the permanent merge).
-func (d *DB) Write(b *Blk, withCache bool) (ok bool, err error) {
+// wcache > 0: give the write database a state cache of that size (it is handed to the temp and to the
+// permanent merge; when it is smaller than the block's number of states it does not hold all of them).
+func (d *DB) Write(b *Blk, wcache int) (ok bool, err error) {
 	wst, err := d.Center.NewBlockWriteDatabase(base.Height(b.H))
 	if err != nil {
 		return false, err
 	}
 	defer func() { _ = wst.Close() }()
-	if withCache {
+	if wcache > 0 {
 		if lw, isl := wst.(*isaacdatabase.LeveldbBlockWrite); isl {
-			lw.SetStateCache(util.NewLRUGCache[string, [2]interface{}](64))
+			lw.SetStateCache(util.NewLRUGCache[string, [2]interface{}](wcache))
 		}
 	}
 	if err := wst.SetBlockMap(b.mp); err != nil {
